@@ -170,6 +170,13 @@ def run(ctx):
         data = [ctx.rng.choice([-1, 0, 1, 2]) for _ in ts]
         thr_case(ctx, ts, st, en, data, ctx.rng.choice([0.5, 1.5, -0.5, 0.25]), list(METHODS)[k % 4], ctx.rng.choice([2000, 10**6, 10**9]), batch,
                  dtype="int")
+    # missing values in the data: NaN satisfies none of the four comparisons, so a NaN sample is REJECTED by every method
+    for k in range(160 if ctx.quick else 2000):
+        st, en = supports[k % len(supports)]
+        inside = [t for t in range(G + 1) if any(a <= t <= b for a, b in zip(st, en))]
+        ts = sorted(ctx.rng.sample(inside, ctx.rng.randint(2, min(6, len(inside)))))
+        data = [ctx.rng.choice([0.0, 2.0, float("nan")]) for _ in ts]
+        thr_case(ctx, ts, st, en, data, 1, list(METHODS)[k % 4], ctx.rng.choice([2000, 10**6, 10**9]), batch)
     thr_eval(ctx, batch)
     lines, meta = [], []
     for st, en in [([0], [G]), ([0, 5], [4, G])]:
